@@ -1,4 +1,5 @@
 import Rangers.Generated.C07Facts
+import Rangers.Generated.C08Types
 import Rangers.Model.TxAuth
 /-!
 # C07 — T-gen tie
@@ -90,10 +91,48 @@ theorem convert_assignments :
       "result.Nonce=txRaw.data.AccountNonce", "result.Source=sender.String()",
       "result.Target=txRaw.To().String()", "result.Type=types.TransactionTypeETHTX"] := rfl
 
+/-- JSON keys and their order in `Data` (`omitempty` never triggers: all four strings are non-empty). -/
+theorem contract_data_fields :
+    contractDataFields = ["GasPrice string json:'gasPrice,omitempty'", "GasLimit string json:'gasLimit,omitempty'",
+      "TransferValue string json:'transferValue,omitempty'", "AbiData string json:'abiData,omitempty'"] := rfl
+
+/-- The secp256k1 decision layer the model's `recoverPubkey` / `recoverPubkeyEth` / `libVerify`
+    were written against: the native wrapper respells 27.. as 0.. before the `>= 4` check, the
+    ETH wrapper does not; the library's verify starts with the low-s test; each path imports
+    its own wrapper. -/
+theorem secp_layer_shape :
+    checkSignatureCommon = ["if len(sig)!=65", "if sig[64]>26", "sig[64]-=27", "if sig[64]>=4"] ∧
+    checkSignatureEth = ["if len(sig)!=65", "if sig[64]>=4"] ∧
+    recoverPubkeyCommonCalls = ["len", "checkSignature", "C.secp256k1_ext_ecdsa_recover"] ∧
+    recoverPubkeyEthCalls = ["len", "checkSignature", "C.secp256k1_ext_ecdsa_recover"] ∧
+    ecdsaVerifyReturnCommon = ["return (!secp256k1_scalar_is_high(&s) && secp256k1_pubkey_load(ctx, &q, pubkey) && secp256k1_ecdsa_sig_verify(&ctx->ecmult_ctx, &r, &s, &q, &m))"] ∧
+    secpImportNative = ["com.tuntun.rangers/node/src/common/secp256k1"] ∧
+    secpImportEth = ["com.tuntun.rangers/node/src/eth_crypto/secp256k1"] :=
+  ⟨rfl, rfl, rfl, rfl, rfl, rfl, rfl⟩
+
+/-- At source level no check reads `SubTransactions`, `SubHash`, `ExtraDataType`, `RequestId` or
+    `SocketRequestId` (the model's `unauthenticated_fields_ignored`): the selectors on `tx` in
+    the whole verification path are exactly these (`ToTxJson` only feeds a log line). A check
+    that starts reading another field — or stops reading one — breaks this obligation. -/
+theorem verify_reads_only_authenticated_fields :
+    verifyFieldsRead = ["VerifyTransaction: Hash,Type", "verifyTxChainId: ChainId,Hash",
+      "verifyTransactionHash: GenHash,Hash", "verifyTransactionSign: Hash,Sign,Source",
+      "verifyETHTx: ExtraData,Hash,ToTxJson",
+      "compareTx: ChainId,Data,ExtraData,Hash,Nonce,Source,Target,Type",
+      "GenHash: ChainId,Data,ExtraData,Nonce,Source,Target,Time,Type"] := rfl
+
 theorem signer_call_order :
     eip155SenderCalls = ["tx.Protected", "HomesteadSigner{}.Sender", "tx.ChainId().Cmp", "tx.ChainId",
       "new(big.Int).Sub", "new", "V.Sub", "recoverPlain", "s.Hash"] ∧
     recoverPlainCalls = ["Vb.BitLen", "crypto.ValidateSignatureValues", "crypto.Ecrecover", "crypto.Keccak256"] :=
   ⟨rfl, rfl⟩
+
+/-- The reflected shape of `eth_tx.txdata` (C08's T-gen, regenerated by this check too) is
+    the one `txOfItem` types the nine items with: uint64, big, uint64, `rlp:"nil"` *[20]byte,
+    big, bytes, big, big, big.  A changed field type, order or tag breaks this obligation. -/
+theorem txdata_shape :
+    Rangers.Generated.C08.eth_tx_txdata =
+      .struct [(.none, .uint 64), (.none, .big), (.none, .uint 64), (.nilOK, .ptr (.barr 20)),
+        (.none, .big), (.none, .bytes), (.none, .big), (.none, .big), (.none, .big)] := rfl
 
 end Rangers.Props.C07Facts
